@@ -286,3 +286,46 @@ pub fn sdd_eval(p: SddPtr, a: u64) -> bool {
         SddPtr::Compl(or) => !sdd_eval(SddPtr::Reg(or), a),
     }
 }
+
+/// value of an SDD under a complete assignment (index = label), memoised per node: linear in the size of the
+/// diagram (the un-memoised `sdd_eval` is exponential in the depth of diagrams with shared nodes)
+pub fn sdd_eval_memo(p: SddPtr, a: &[bool]) -> bool {
+    fn rec(p: SddPtr, a: &[bool], memo: &mut HashMap<(u8, usize), bool>) -> bool {
+        match p {
+            SddPtr::PtrTrue => true,
+            SddPtr::PtrFalse => false,
+            SddPtr::Var(l, pol) => a[l.value_usize()] == pol,
+            SddPtr::BDD(b) | SddPtr::ComplBDD(b) => {
+                let key = (0u8, b as *const _ as usize);
+                let reg = match memo.get(&key) {
+                    Some(&v) => v,
+                    None => {
+                        let v = if a[b.label().value_usize()] { rec(b.high(), a, memo) } else { rec(b.low(), a, memo) };
+                        memo.insert(key, v);
+                        v
+                    }
+                };
+                reg != matches!(p, SddPtr::ComplBDD(_))
+            }
+            SddPtr::Reg(o) | SddPtr::Compl(o) => {
+                let key = (1u8, o as *const _ as usize);
+                let reg = match memo.get(&key) {
+                    Some(&v) => v,
+                    None => {
+                        let mut v = false;
+                        for e in o.iter() {
+                            if rec(e.prime, a, memo) && rec(e.sub, a, memo) {
+                                v = true;
+                                break;
+                            }
+                        }
+                        memo.insert(key, v);
+                        v
+                    }
+                };
+                reg != matches!(p, SddPtr::Compl(_))
+            }
+        }
+    }
+    rec(p, a, &mut HashMap::new())
+}
